@@ -170,6 +170,13 @@ def r_acct(F, V):
             fld = V.acct_store(s)
             shape, orig = _store_shape(body, s, fld)
             foreign = [o for o in orig if o[0] == "load" and (last_field(o[1]) or {}).get("name") in ("items", "growth_left") and deep_root(body, o[1])[0] != deep_root(body, s["p"])[0]]
+            if shape[0] == "copy" and foreign:
+                # a count copied from another table is the SAME count of that table
+                names_ = set((last_field(o[1]) or {}).get("name") for o in foreign)
+                if names_ and fld not in names_:
+                    R.violation("%s|%s<-other.%s" % (p, fld, sorted(names_)[0]), body, "`%s` of this table is set from the other table's `%s`: the free-room count and the element count are different quantities "
+                                "(e.g. growth_left = items over-states the free room of a clone more than half full: it fills up completely and probes never terminate)" % (fld, sorted(names_)[0]), line=line_of(body, stmt=s))
+                    R.inst("%s|%s<-other.%s" % (p, fld, sorted(names_)[0]), "count copied from the wrong field", "violation", True, where(body, stmt=s))
             if shape[0] in ("copy", "binop:Sub", "dec") and foreign:
                 key = "%s|%s<-other" % (p, fld)
                 in_loop = [h for h, blocks in loops if i in blocks]
